@@ -713,6 +713,15 @@ func seedStream(seed int64, k int) []uint64 {
 }
 
 func (prop) Run(line string) core.Outcome {
+	if strings.HasPrefix(line, "prx ") {
+		var f []string
+		for _, p := range strings.Split(line, " ") {
+			if p != "" {
+				f = append(f, p)
+			}
+		}
+		return runProxy(f)
+	}
 	c, ok := parseCase(line)
 	if !ok {
 		return core.Outcome{Impl: "bad-op", Tags: []string{"bad-op", "trivial"}}
